@@ -50,12 +50,12 @@ theorem _root_.Flute.Admission.fileDescNew_eq (dflt : Oti) (ovr : Option Oti) (L
 
 /-! ### shape of the tail of `FileDesc::new` -/
 
-theorem rsChecks_some (oti : Oti) (L : Nat) (r : Refuse) (h : rsChecks oti L = .ok (some r)) :
+private theorem rsChecks_some (oti : Oti) (L : Nat) (r : Refuse) (h : rsChecks oti L = .ok (some r)) :
     r = .rsFtiFields ∨ r = .rsBlockOver255 := by
   unfold rsChecks at h
   (repeat' split at h) <;> simp_all
 
-theorem rsChecks_none (oti : Oti) (L : Nat) (h : rsChecks oti L = .ok none)
+private theorem rsChecks_none (oti : Oti) (L : Nat) (h : rsChecks oti L = .ok none)
     (hf : oti.fec = .rs28 ∨ oti.fec = .rs28us) :
     (oti.fec = .rs28 → oti.maxSbl + oti.parity ≤ 255) ∧
     (oti.fec = .rs28us → oti.maxSbl + oti.parity ≤ 65535) ∧
@@ -78,18 +78,6 @@ theorem rsChecks_none (oti : Oti) (L : Nat) (h : rsChecks oti L = .ok none)
           · cases h
           · omega
 
-/-- the Raptor / RaptorQ part of the tail, once the Reed-Solomon checks have passed -/
-def raptorTail (oti : Oti) (L : Nat) : Rs (Except Refuse Oti) :=
-  if oti.fec = .raptorq ∨ oti.fec = .raptor then
-    match Partition.blockPartitioning oti.maxSbl L oti.esl with
-    | .error w => .error w
-    | .ok q =>
-      if q.1 > maxBlockSymbols oti.fec then .ok (.error .blockOverKmax) else
-      if oti.scheme.isNone then .ok (.error .noSchemeSpecific) else
-      if q.2.2.2 > (if oti.fec = .raptorq then 255 else 65535) then .ok (.error .tooManyBlocks) else
-      .ok (.ok (setZ oti q.2.2.2))
-  else .ok (.ok oti)
-
 theorem fileDescTail_eq (oti : Oti) (L : Nat) :
     fileDescTail oti L =
       (if (oti.fec = .rs28 ∨ oti.fec = .rs28us) ∧ oti.parity = 0 then .ok (.error .rsNoParity) else
@@ -99,10 +87,10 @@ theorem fileDescTail_eq (oti : Oti) (L : Nat) :
        | .ok none => raptorTail oti L) := rfl
 
 /-- every way the tail can refuse -/
-theorem tail_refusals (oti : Oti) (L : Nat) (r : Refuse) (h : fileDescTail oti L = .ok (.error r)) :
+private theorem tail_refusals (oti : Oti) (L : Nat) (r : Refuse) (h : fileDescTail oti L = .ok (.error r)) :
     r = .rsNoParity ∨ r = .rsFtiFields ∨ r = .rsBlockOver255 ∨
     (rsChecks oti L = .ok none ∧ raptorTail oti L = .ok (.error r) ∧
-      (r = .blockOverKmax ∨ r = .noSchemeSpecific ∨ r = .tooManyBlocks)) := by
+      (r = .blockOverKmax ∨ r = .raptorBlockLt4 ∨ r = .noSchemeSpecific ∨ r = .tooManyBlocks)) := by
   rw [fileDescTail_eq] at h
   split at h
   · injection h with h; injection h with h; exact .inl h.symm
@@ -116,7 +104,25 @@ theorem tail_refusals (oti : Oti) (L : Nat) (r : Refuse) (h : fileDescTail oti L
     · rename_i hnone
       refine .inr (.inr (.inr ⟨hnone, h, ?_⟩))
       unfold raptorTail at h
-      (repeat' split at h) <;> simp_all
+      split at h
+      · split at h
+        · cases h
+        · rename_i q _
+          simp only [] at h
+          by_cases c1 : q.1 > maxBlockSymbols oti.fec
+          · rw [if_pos c1] at h; injection h with h; injection h with h; subst h; simp
+          rw [if_neg c1] at h
+          by_cases c2 : oti.fec = .raptor ∧ ((q.2.2.1 > 0 ∧ (q.1 = 2 ∨ q.1 = 3)) ∨
+              (q.2.2.2 > q.2.2.1 ∧ (q.2.1 = 2 ∨ q.2.1 = 3)))
+          · rw [if_pos c2] at h; injection h with h; injection h with h; subst h; simp
+          rw [if_neg c2] at h
+          by_cases c3 : oti.scheme.isNone = true
+          · rw [if_pos c3] at h; injection h with h; injection h with h; subst h; simp
+          rw [if_neg c3] at h
+          by_cases c4 : q.2.2.2 > (if oti.fec = .raptorq then 255 else 65535)
+          · rw [if_pos c4] at h; injection h with h; injection h with h; subst h; simp
+          · rw [if_neg c4] at h; injection h with h; cases h
+      · simp at h
 
 /-! ### the `u8` / `u16` conversion of Z can never fail -/
 
@@ -216,7 +222,7 @@ theorem fileDescNew_refusal_late (dflt : Oti) (ovr : Option Oti) (L : Nat) (r : 
     by_cases hL : L > mtl
     · simp only [hL, ↓reduceIte, Except.ok.injEq, Except.error.injEq] at h; subst h; rfl
     simp only [hL, ↓reduceIte] at h
-    rcases tail_refusals oti L r h with h' | h' | h' | ⟨_, _, h' | h' | h'⟩ <;> subst h' <;> rfl
+    rcases tail_refusals oti L r h with h' | h' | h' | ⟨_, _, h' | h' | h' | h'⟩ <;> subst h' <;> rfl
 
 /-! ## 3. block encoder proofs (agent benc): `Accepts` / `Link.noFail` follow from admission -/
 
@@ -268,6 +274,32 @@ theorem admitted_block_limits (dflt : Oti) (ovr : Option Oti) (L : Nat) (o : Oti
           simp only [hf, ↓reduceIte, hq] at h
           (repeat' split at h) <;> (try simp at h)
           all_goals exact ⟨by omega, by cases hsc : oti.scheme <;> simp_all⟩
+
+/-- an admitted Raptor (FEC 1) object has no source block of 2 or 3 symbols (the sizes the `raptor-code` encoder
+    cannot encode): neither the larger size, if some block has it, nor the smaller one -/
+theorem admitted_raptor_blocks (dflt : Oti) (ovr : Option Oti) (L : Nat) (o : Oti)
+    (h : fileDescNew dflt ovr L = .ok (.ok o)) (hf : (chosen dflt ovr).fec = .raptor) (q : Partition.Quad)
+    (hq : Partition.blockPartitioning (chosen dflt ovr).maxSbl L (chosen dflt ovr).esl = .ok q) :
+    (q.2.2.1 > 0 → q.1 ≠ 2 ∧ q.1 ≠ 3) ∧ (q.2.2.2 > q.2.2.1 → q.2.1 ≠ 2 ∧ q.2.1 ≠ 3) := by
+  rw [fileDescNew_eq] at h
+  generalize chosen dflt ovr = oti at h hq hf
+  have h2m : ¬ oti.fec = .rs2m := by rw [hf]; simp
+  simp only [h2m, ↓reduceIte] at h
+  cases h1 : maxTransferLength oti with
+  | error w => simp [h1] at h
+  | ok mtl =>
+    simp only [h1] at h
+    by_cases hL : L > mtl
+    · simp [hL] at h
+    simp only [hL, ↓reduceIte] at h
+    rw [fileDescTail_eq] at h
+    have hrs : rsChecks oti L = .ok none := by simp [rsChecks, hf]
+    simp only [hf, reduceCtorEq, or_self, false_and, ↓reduceIte, hrs] at h
+    unfold raptorTail at h
+    simp only [hf, reduceCtorEq, or_true, true_and, ↓reduceIte, hq] at h
+    (repeat' split at h) <;> (try simp at h)
+    all_goals (rename_i hsmall _ _; constructor <;> intro hh <;> constructor <;> intro he <;>
+      exact hsmall (by simp_all))
 
 /-- the statement before /repo d65a846 (bound 256, no field clause), kept for the proofs that use it
     (`Props.C08`); it follows from `admitted_block_limits` -/
